@@ -7,8 +7,9 @@ From DTN Require Import Lib.Bytes Lib.Cbor Lib.CborProofs Lib.Crc Model.Bundle G
 Import ListNotations.
 Local Open Scope Z_scope.
 
-(* no division here; the div/mod hook (set by Lib.Bytes) gets in the way of the boolean goals below *)
-Ltac Zify.zify_post_hook ::= idtac.
+(* no division here: restore the hook ZifyBool installs (Lib.Bytes replaces it by the div/mod one, which
+   switches the treatment of boolean goals off) *)
+Ltac Zify.zify_post_hook ::= ZifyBool.elim_bool_cstr.
 
 (** * 0. Interface to Gen/FragBudget.v
 
